@@ -1353,6 +1353,14 @@ def _r12(ctx):
     return r12_rb_partition_agreement(ctx)
 
 
+def _r13(ctx):
+    from .c01_ovf import r13_overflow_safe
+    r13_overflow_safe(ctx)
+
+
+_r13.__doc__ = "no intermediate of a bounded closed-form coefficient overflows (see c01_ovf)"
+
+
 RULES = [
     ("C01-R1", r1_coef_identities, 150),
     ("C01-R1b", r1b_regime_selectors, 14),
@@ -1365,6 +1373,7 @@ RULES = [
     ("C01-R10", r10_real_unc_batch, 4),
     ("C01-R11", r11_complex_unc_batch, 24),
     ("C01-R12", _r12, 2),
+    ("C01-R13", _r13, 8),
 ]
 
 LEVEL = "other"
